@@ -76,6 +76,10 @@ def run(pid, tier, seed, power):
                 nl = len(c.ops) + 1
                 mtrace, real = tl[i:i + nl], T.trace_lines(c)
                 i += nl
+                if not power:
+                    # a process crash does not care about fsync: it is not an observable of C03
+                    strip = lambda ls: [";".join(x for x in l.split(";") if not x.startswith("fsync ")) for l in ls]
+                    mtrace, real = strip(mtrace), strip(real)
                 if c.name not in died and mtrace != real:
                     k = next((j for j in range(min(len(mtrace), len(real))) if mtrace[j] != real[j]), 0)
                     ndis += 1
